@@ -280,6 +280,57 @@ def r15_4(ctx):
 r15_4.rule_id = "R15.4"
 
 
+def _sv_bits(sv, w=64):
+    """bit-provenance value of an integer SV whose only unknown is the result of the counter's fetch_add (symbolic input)"""
+    from sa.bitdom import const, inp, v_add, v_shl, v_shr, v_and, v_or, v_xor, Undecided
+    if isinstance(sv, tuple):
+        if sv[:1] == ("c",) and isinstance(sv[1], int):
+            return const(w, sv[1] & ((1 << w) - 1))
+        if sv[:1] == ("call",) and str(sv[1]).endswith("fetch_add"):
+            return inp(w)
+        if sv[:1] == ("cast",):
+            return _sv_bits(sv[-1], w)
+        if sv[:1] == ("op",) and len(sv) == 4:
+            a = _sv_bits(sv[2], w)
+            if sv[1] in ("<<", ">>"):
+                if not (isinstance(sv[3], tuple) and sv[3][:1] == ("c",)):
+                    raise Undecided("variable shift")
+                return v_shl(a, sv[3][1]) if sv[1] == "<<" else v_shr(a, sv[3][1])
+            b = _sv_bits(sv[3], w)
+            return {"+": v_add, "&": v_and, "|": v_or, "^": v_xor}[sv[1]](a, b)
+    raise Undecided("unsupported term %r" % (sv,))
+
+
+def r15_6(ctx):
+    """Ellen tree ABA stamp: the 'clean' update word a node gets when it is unflagged carries no flag bits and changes with EVERY unflag (the
+    lowest bit of the per-node counter reaches the stamp) - try_insert / erase rely on 'm_pUpdate unchanged since search()' meaning 'nobody
+    flagged and unflagged this node in between'"""
+    from sa.bitdom import Undecided, fmt
+    n = 0
+    for F in ctx.db.find(q="cds::intrusive::ellen_bintree::internal_node::null_update_desc"):
+        for p in PathSim(F, bound=64).run():
+            if p.outcome != "return":
+                continue
+            r = p.ret
+            while isinstance(r, tuple) and r[:1] == ("obj",) and len(r) > 2 and len(r[2]) == 1:
+                r = r[2][0]
+            n += 1
+            try:
+                bits = _sv_bits(r)
+            except (Undecided, KeyError) as e:
+                ctx.broken("null_update_desc: return expression outside the bit domain: %s" % e)
+                continue
+            flags_clear = bits[0] == 0 and bits[1] == 0
+            low = [b for b in bits[2:] if isinstance(b, tuple) and b[0] in ("i", "n") and b[1] == 0]
+            ctx.check(flags_clear and bool(low), "R15.6", F, "the clean update stamp has its two flag bits clear and differs for consecutive unflags of the node", None,
+                      detail="stamp bits (LSB first): %s. If the counter's lowest bit does not reach the stamp, a complete insert/erase under the same parent between "
+                      "search() and the flag CAS goes unnoticed: the second insert wins its IFlag CAS on a stale leaf and reports success without linking. %s"
+                      % (fmt(bits[:18]), R), sig="aba-stamp")
+    if n < 1:
+        ctx.broken("internal_node::null_update_desc not found")
+r15_6.rule_id = "R15.6"
+
+
 def r15_5(ctx):
     n = bronson.rule_node_locks(ctx, "R15.5", R)
     if n < 20:
@@ -287,5 +338,5 @@ def r15_5(ctx):
 r15_5.rule_id = "R15.5"
 
 
-RULES = [r15_1, r15_2, r15_3, r15_4, r15_5]
-FLOORS = {"R15.1": 20, "R15.2": 150, "R15.3": 20, "R15.4": 40, "R15.5": 20}
+RULES = [r15_1, r15_2, r15_3, r15_4, r15_5, r15_6]
+FLOORS = {"R15.1": 20, "R15.2": 150, "R15.3": 20, "R15.4": 40, "R15.5": 20, "R15.6": 1}
